@@ -29,6 +29,15 @@ package nebula
 // clock advance + quiet check any more). Every inner check is judged like a single check event. One further start
 // configuration is an existing one followed by a sustained receive-only prefix, so the full depth is also explored
 // BEHIND a long one-way history.
+//
+// A re-handshake that a check started can FAIL: the event "hsfail" lets the pending handshake to the peer run out of
+// retries through the real HandshakeManager.handleOutbound (the peer never answers) until the manager gives it up and
+// deletes it. The tunnel itself is untouched by that, so the statement's re-handshake clause applies again on the next
+// check ("a re-handshake is started when the local certificate changed or the counter passed the rekey threshold" has
+// no "once"). The number of given-up attempts (capped) is a history variable of the model and part of the state key, so
+// that "behind a failed attempt" is not merged with the otherwise identical state that never tried. Two start
+// configurations lie behind a scripted failed attempt (counter reason, certificate reason), so that quick explores the
+// full depth behind them.
 
 import (
 	"fmt"
@@ -173,6 +182,12 @@ var c30Seeds = []c30Seed{
 	// behind a sustained receive-only history (timeout / check interval checks) with drop_inactive on
 	{name: "lo-p256/rx-sustained", local: "v2a", tunMy: [2]string{"v2a", "v2a"}, tunPeer: [2]string{"loP256", "loShortP256"}, disc: true, drop: true, p256: true, localRenew: "v2b",
 		prefix: []c30Ev{{K: "rx", X: 0, N: c30KT}}},
+	// behind a re-handshake attempt that was started by a check and then given up by the handshake manager (the peer did
+	// not answer any retry): once for the counter reason, once for the renewed local certificate
+	{name: "hi-long/rekey-given-up", local: "v1a", tunMy: [2]string{"v1a", "v1a"}, tunPeer: [2]string{"hiLong", "hiLong"}, disc: true, drop: false, localRenew: "v1b", localV2only: "v2a",
+		prefix: []c30Ev{{K: "ctr", X: 0, V: "rekey"}, {K: "in", X: 0}, {K: "check", X: 0}, {K: "hsfail"}}},
+	{name: "hi-short-idle/renewal-given-up", local: "v2a", tunMy: [2]string{"v2a", "v2a"}, tunPeer: [2]string{"hiShort", "hiLong"}, disc: false, drop: true, localRenew: "v2b",
+		prefix: []c30Ev{{K: "local", V: "v2b"}, {K: "in", X: 0}, {K: "check", X: 0}, {K: "hsfail"}}},
 }
 
 // ---------------------------------------------------------------------------------------------------------------
@@ -194,6 +209,7 @@ type c30Model struct {
 	ca         string // good | block | twin | other
 	local      string
 	tun        [2]c30Tun
+	gaveUp     int // history variable: re-handshake attempts to the peer that the handshake manager gave up (capped at 2)
 }
 
 // ---------------------------------------------------------------------------------------------------------------
@@ -281,6 +297,8 @@ func c30Build(tb testing.TB, seed *c30Seed) *c30World {
 	// HostMap and Punchy carry no state the property can observe (preferred_ranges / punchy.* stay at their defaults,
 	// punching off); they are built without their reload callbacks, whose config diffing dominates the replay cost.
 	w.hmap = newHostMap(l)
+	noRanges := []netip.Prefix{}
+	w.hmap.preferredRanges.Store(&noRanges) // the default (no preferred_ranges), as NewHostMapFromConfig stores it
 	w.conn = &vconn{addr: netip.MustParseAddrPort("192.0.2.5:4242")}
 	punchy := &Punchy{l: l, punchConn: w.conn, metricPunchyTx: metrics.NilCounter{}, metricHolepunchTx: metrics.NilCounter{}}
 	w.cm = newConnectionManagerFromConfig(l, w.c, w.hmap, punchy)
@@ -295,6 +313,10 @@ func c30Build(tb testing.TB, seed *c30Seed) *c30World {
 	punchy.lh = lh
 
 	w.hsm = NewHandshakeManager(l, w.hmap, lh, w.conn, defaultHandshakeConfig)
+	// the retry handler of a pending handshake consults the relay manager (defaults: use_relays on, am_relay off; no
+	// relays are ever learned for the peer); built without its reload callback like HostMap and Punchy above
+	rm := &relayManager{l: l, hostmap: w.hmap}
+	rm.useRelays.Store(true)
 	cs := w.pki.getCertState()
 	w.ifce = &Interface{
 		hostMap:           w.hmap,
@@ -305,6 +327,7 @@ func c30Build(tb testing.TB, seed *c30Seed) *c30World {
 		pki:               w.pki,
 		handshakeManager:  w.hsm,
 		connectionManager: w.cm,
+		relayManager:      rm,
 		myVpnAddrs:        cs.myVpnAddrs,
 		myVpnNetworks:     cs.myVpnNetworks,
 		messageMetrics:    newMessageMetricsOnlyRecvError(),
@@ -389,7 +412,7 @@ func (w *c30World) reload(tb testing.TB) {
 // events
 
 type c30Ev struct {
-	K string // in out check adv advT-1 advT disc drop ca local ctr | compound: rx tx
+	K string // in out check adv advT-1 advT disc drop ca local ctr hsfail | compound: rx tx
 	X int    // tunnel (0 = the initial primary P, 1 = the initial non-primary N)
 	V string
 	N int // compound events: number of checks
@@ -434,6 +457,9 @@ func (w *c30World) menu(pos int) []c30Ev {
 		return []c30Ev{{K: "check", X: 0}}
 	}
 	evs = append(evs, c30Ev{K: "adv"})
+	if w.hsm.QueryVpnAddr(w.peer) != nil {
+		evs = append(evs, c30Ev{K: "hsfail"})
+	}
 	for x := 0; x < 2; x++ {
 		if pos < c30SustainPos && w.present(x) && (c30SustainAll || w.primary(x)) {
 			for _, k := range c30SustainK {
@@ -475,6 +501,7 @@ type c30Obs struct {
 	presentAfter                 bool
 	closeSent, testSent          bool
 	hsBefore, hsAfter            bool
+	gaveUpBefore                 int // re-handshake attempts given up before this check
 }
 
 // c30Expect is the row of the statement's decision table that applies to one check.
@@ -601,6 +628,26 @@ func (w *c30World) apply(tb testing.TB, c *mc.Check, ev c30Ev, hist func() []str
 		if w.pki.getCertState() == old {
 			c.Broken("local certificate reload %s was refused", ev.V)
 		}
+	case "hsfail":
+		// the pending (re-)handshake to the peer is given up: the peer answers none of the retries, the real retry handler
+		// runs (as the handshake timer would run it) until the manager deletes the pending handshake
+		if w.hsm.QueryVpnAddr(w.peer) == nil {
+			c.Broken("hsfail without a pending handshake")
+			return
+		}
+		for i := int64(0); i <= w.hsm.config.retries+1 && w.hsm.QueryVpnAddr(w.peer) != nil; i++ {
+			w.hsm.handleOutbound(w.peer, false)
+			w.drain()
+		}
+		w.conn.take()
+		if w.hsm.QueryVpnAddr(w.peer) != nil {
+			c.Broken("pending handshake survives %d unanswered retries", w.hsm.config.retries+2)
+			return
+		}
+		if w.md.gaveUp < 2 {
+			w.md.gaveUp++
+		}
+		c.Add("rehandshakes_given_up", 1)
 	case "ctr":
 		// reaching 2^34 sends legitimately is out of reach: the private counter is set on a legitimately built tunnel
 		if ev.V == "rekey" {
@@ -625,6 +672,7 @@ func (w *c30World) check(c *mc.Check, x int, hist func() []string, judge bool) (
 	h := w.tun[x]
 	o.presentBefore, o.primaryBefore = w.present(x), w.primary(x)
 	o.hsBefore = w.hsm.QueryVpnAddr(w.peer) != nil
+	o.gaveUpBefore = w.md.gaveUp
 	w.conn.take()
 	exp := w.expect(x, o.primaryBefore)
 	w.cm.doTrafficCheck(h.localIndexId, []byte(""), w.nb, w.out, w.now)
@@ -737,8 +785,18 @@ func c30Judge(c *mc.Check, role string, e c30Expect, o c30Obs, hist func() []str
 	if e.rehandshake != "" && o.presentAfter {
 		c.Add("row_rehandshake", 1)
 		c.Distinct("rehandshake_reasons", e.rehandshake)
+		retry := o.gaveUpBefore > 0 && !o.hsBefore
+		if retry {
+			// an earlier attempt was given up and nothing is pending: the reason still holds, so this check has to start one
+			c.Add("row_rehandshake_after_give_up", 1)
+			c.Distinct("rehandshake_reasons_after_give_up", e.rehandshake)
+		}
 		if !o.hsAfter {
-			c.Violation("no re-handshake started: "+e.rehandshake, det())
+			if retry {
+				c.Violation("no re-handshake started after an earlier attempt was given up: "+e.rehandshake, det())
+			} else {
+				c.Violation("no re-handshake started: "+e.rehandshake, det())
+			}
 		}
 	}
 }
@@ -748,7 +806,7 @@ func c30Judge(c *mc.Check, role string, e c30Expect, o c30Obs, hist func() []str
 
 func (w *c30World) key() string {
 	var sb strings.Builder
-	fmt.Fprintf(&sb, "%s|%v%v|%s|%s|hs=%v", w.seed.name, w.md.disc, w.md.drop, w.md.ca, w.md.local, w.hsm.QueryVpnAddr(w.peer) != nil)
+	fmt.Fprintf(&sb, "%s|%v%v|%s|%s|hs=%v gaveUp=%d", w.seed.name, w.md.disc, w.md.drop, w.md.ca, w.md.local, w.hsm.QueryVpnAddr(w.peer) != nil, w.md.gaveUp)
 	capd := func(d time.Duration) int {
 		if d > c30Timeout+c30CheckInterval {
 			d = c30Timeout + c30CheckInterval
@@ -813,6 +871,7 @@ func TestVerifC30(t *testing.T) {
 	c.Assume("'Closed' is read as closeTunnel (removed + CloseTunnel written), 'dropped' as removed; when several clauses apply (blocklisted and exhausted) only removal is demanded.")
 	c.Assume("Idle time for 'closed only when idle >= timeout' is the true idle time (since the last traffic flag); the converse 'idle primary past the timeout is removed when drop_inactive is on' is asserted with idle measured from the last check that observed traffic (the implementation's own, shorter, measure) — 'at least the timeout' is read as the boundary of the policy.")
 	c.Assume("Re-handshake is demanded only on a check of the primary tunnel that showed inbound traffic and is not torn down; the statement does not say at which check an idle tunnel should re-handshake (weaker reading).")
+	c.Assume("A re-handshake attempt that the handshake manager gave up (no answer to any retry, the pending handshake is deleted) does not discharge the clause: while the reason persists (counter still past the threshold, tunnel still on the replaced local certificate) the next check of the alive primary tunnel must start a re-handshake again. While an attempt is still pending only 'a pending handshake exists after the check' is demanded.")
 	c.Assume("disconnect_invalid off: the statement is silent; nothing is asserted about an invalid, non-blocklisted certificate beyond the traffic clauses.")
 	c.Assume("Message counters at 2^34 / the reject ceiling are stored into the private counter of a legitimately installed tunnel; tunnels are installed through HostMap.unlockedAddHostInfo with real cipher states rather than by a Noise handshake.")
 
@@ -916,6 +975,9 @@ func TestVerifC30(t *testing.T) {
 			c.Require(c.Counter(row).Load() > 0, "decision-table %s never applied", row)
 		}
 		c.Require(c.DistinctCount("rehandshake_reasons") == 3, "re-handshake reasons reached: %d of 3", c.DistinctCount("rehandshake_reasons"))
+		c.Require(c.Counter("rehandshakes_given_up").Load() > 0, "no pending re-handshake was ever given up")
+		c.Require(c.Counter("row_rehandshake_after_give_up").Load() > 0, "no check demanded a re-handshake behind a given-up attempt")
+		c.Require(c.DistinctCount("rehandshake_reasons_after_give_up") >= 2, "re-handshake reasons reached behind a given-up attempt: %d of at least 2 (counter, certificate)", c.DistinctCount("rehandshake_reasons_after_give_up"))
 		c.Require(len(decByRole) >= 9, "only %d (role, decision) outcomes", len(decByRole))
 	}
 }
